@@ -43,7 +43,7 @@ MAX_VIOLATIONS_PER_KEY = 3
 
 def jsonable(o, depth=0):
     """Best-effort conversion of witness / sample objects to JSON."""
-    if depth > 12:
+    if depth > 40:
         return repr(o)[:200]
     if o is None or isinstance(o, (bool, int, str)):
         return o
